@@ -51,6 +51,8 @@ inductive PErr where
   | expectedNumber (c : Bytes)
   | tooLarge
   | unexpectedToken (c : Bytes)
+  | reprNotInteger          -- run-time: a radix representation applied to a float that is not an `i64` value
+                            -- (only with requests/C15-fix-14.diff applied)
   deriving DecidableEq, Repr
 
 def u32max : Nat := 4294967295
@@ -333,5 +335,235 @@ def format (gFirst : Bytes → Nat) (fmt : Bytes) (v : FVal) (exactCenter : Bool
   match parse gFirst fmt clusterFirst with
   | .error e => .error e
   | .ok o => .ok (if signAware then applyFmtSign gFirst v (some o) exactCenter else applyFmt gFirst v (some o) exactCenter)
+
+/-! ## Every value kind: floats, containers, objects with `@display`
+
+`FVal` / `render` above cover strings, integers, booleans and null. `XVal` adds the other kinds that can be
+interpolated. Floats are modelled *exactly* from their IEEE-754 bits (fixed precision, truncation to `i64`,
+rounding to significant digits — plain `Nat` arithmetic, round-half-even as Rust does); the one external fact
+is the **shortest round-trip decimal** of a finite float (`ShortDec`: what `{}` / `{:e}` print — Grisu/Ryu in
+Rust's `core::fmt`), supplied by the harness like the Unicode facts. Containers hold simple elements;
+an object is represented by the texts its `@display` / `@debug` functions return. -/
+
+/-- shortest round-trip decimal of a finite float: value = d₁.d₂d₃… × 10^exp (digits ASCII, d₁ ≠ 0 unless 0) -/
+structure ShortDec where
+  digits : Bytes
+  exp : Int
+  deriving DecidableEq, Repr, Inhabited
+
+inductive FClass | finite | inf | nan
+  deriving DecidableEq, Repr
+
+def fNeg (bits : Nat) : Bool := bits / 2 ^ 63 % 2 == 1
+def fExpBits (bits : Nat) : Nat := bits / 2 ^ 52 % 2048
+def fFrac (bits : Nat) : Nat := bits % 2 ^ 52
+def fClass (bits : Nat) : FClass :=
+  if fExpBits bits = 2047 then (if fFrac bits = 0 then .inf else .nan) else .finite
+/-- a finite float is `fMant · 2^fExp2` -/
+def fMant (bits : Nat) : Nat := if fExpBits bits = 0 then fFrac bits else fFrac bits + 2 ^ 52
+def fExp2 (bits : Nat) : Int := if fExpBits bits = 0 then -1074 else (fExpBits bits : Int) - 1075
+/-- numerator and denominator of the magnitude -/
+def fNum (bits : Nat) : Nat := fMant bits * 2 ^ (fExp2 bits).toNat
+def fDen (bits : Nat) : Nat := 2 ^ (-(fExp2 bits)).toNat
+
+def showDecBig (n : Nat) : Bytes := natDigits 10 false 1200 n
+
+/-- `num / den` rounded to the nearest integer, ties to even -/
+def roundDiv (num den : Nat) : Nat :=
+  let q := num / den
+  let r := num % den
+  if 2 * r > den ∨ (2 * r = den ∧ q % 2 = 1) then q + 1 else q
+
+def signBytes (neg : Bool) : Bytes := if neg then [45] else []
+
+/-- `{:.p}` of the exact value `num / den` -/
+def fixedText (neg : Bool) (num den p : Nat) : Bytes :=
+  let ds := showDecBig (roundDiv (num * 10 ^ p) den)
+  let ds := List.replicate (p + 1 - ds.length) 48 ++ ds
+  signBytes neg ++ ds.take (ds.length - p) ++ (if p = 0 then [] else 46 :: ds.drop (ds.length - p))
+
+def nonFinite (bits : Nat) : Bytes :=
+  if fClass bits = .nan then [78, 97, 78] else signBytes (fNeg bits) ++ [105, 110, 102]
+
+/-- `format!("{:.*}", p, f)` -/
+def floatFixed (bits p : Nat) : Bytes :=
+  if fClass bits ≠ .finite then nonFinite bits else fixedText (fNeg bits) (fNum bits) (fDen bits) p
+
+def fIntegral (bits : Nat) : Bool := fNum bits % fDen bits == 0
+
+/-- `KNumber`'s `Display` for an `f64`: `{:.1}` when there is no fractional part, `{}` otherwise -/
+def floatDisplay (bits : Nat) (sd : ShortDec) : Bytes :=
+  if fClass bits ≠ .finite then nonFinite bits
+  else if fIntegral bits then floatFixed bits 1
+  else
+    signBytes (fNeg bits) ++
+      (if sd.exp ≥ 0 then sd.digits.take (sd.exp.toNat + 1) ++ 46 :: sd.digits.drop (sd.exp.toNat + 1)
+       else [48, 46] ++ List.replicate ((-sd.exp).toNat - 1) 48 ++ sd.digits)
+
+/-- `{:e}` / `{:E}` of an `f64` -/
+def floatExp (upper : Bool) (bits : Nat) (sd : ShortDec) : Bytes :=
+  if fClass bits ≠ .finite then nonFinite bits
+  else signBytes (fNeg bits) ++ sd.digits.take 1 ++
+    (if sd.digits.length > 1 then 46 :: sd.digits.drop 1 else []) ++ [if upper then 69 else 101] ++ showInt sd.exp
+
+/-- `f as i64`: toward zero, saturating, NaN ↦ 0 -/
+def truncI64 (bits : Nat) : Int :=
+  match fClass bits with
+  | .nan => 0
+  | .inf => if fNeg bits then -9223372036854775808 else 9223372036854775807
+  | .finite =>
+    let mag : Int := (fNum bits / fDen bits : Nat)
+    let v := if fNeg bits then -mag else mag
+    if v < -9223372036854775808 then -9223372036854775808 else if v > 9223372036854775807 then 9223372036854775807 else v
+
+/-- the float is exactly an `i64` value -/
+def fExactI64 (bits : Nat) : Bool :=
+  fClass bits == .finite && fIntegral bits &&
+    (if fNeg bits then decide (fNum bits / fDen bits ≤ 9223372036854775808) else decide (fNum bits / fDen bits ≤ 9223372036854775807))
+
+def pow10n (k : Int) : Nat := 10 ^ k.toNat
+
+/-- `num / den ≥ 10^g` -/
+def geP10 (num den : Nat) (g : Int) : Bool := decide (num * pow10n (-g) ≥ den * pow10n g)
+
+/-- `⌊log₁₀ (num / den)⌋` for a positive value, from a guess that is off by at most `fuel` -/
+def log10Floor (num den : Nat) : Nat → Int → Int
+  | 0, g => g
+  | fuel + 1, g =>
+    if !geP10 num den g then log10Floor num den fuel (g - 1)
+    else if geP10 num den (g + 1) then log10Floor num den fuel (g + 1)
+    else g
+
+/-- `{:.pe}` of the exact value `num / den`: `p + 1` significant digits, ties to even -/
+def expPrecText (neg upper : Bool) (num den : Nat) (guess : Int) (p : Nat) : Bytes :=
+  let e := if upper then 69 else 101
+  if num = 0 then signBytes neg ++ [48] ++ (if p = 0 then [] else 46 :: List.replicate p 48) ++ [e, 48]
+  else
+    let E := log10Floor num den 4 guess
+    let q := roundDiv (num * pow10n ((p : Int) - E)) (den * pow10n (E - (p : Int)))
+    let bump := decide (q ≥ 10 ^ (p + 1))
+    let q := if bump then q / 10 else q
+    let E := if bump then E + 1 else E
+    let ds := showDecBig q
+    signBytes neg ++ ds.take 1 ++ (if p = 0 then [] else 46 :: ds.drop 1) ++ [e] ++ showInt E
+
+def floatExpPrec (upper : Bool) (bits : Nat) (sd : ShortDec) (p : Nat) : Bytes :=
+  if fClass bits ≠ .finite then nonFinite bits
+  else expPrecText (fNeg bits) upper (fNum bits) (fDen bits) sd.exp p
+
+/-- elements of containers -/
+inductive Simple where
+  | str (b : Bytes)
+  | int (n : Int)
+  | bool (b : Bool)
+  | null
+  | obj (disp dbg : Bytes)
+  deriving DecidableEq, Repr, Inhabited
+
+/-- every value kind that is interpolated in the modelled envelope -/
+inductive XVal where
+  | base (v : FVal)
+  | float (bits : Nat) (sd : ShortDec)
+  | tuple (xs : List Simple)
+  | list (xs : List Simple)
+  | map (es : List (Bytes × Simple))
+  | obj (disp dbg : Bytes)          -- a map with `@display` (and `@debug`): the texts its functions return
+  deriving Repr, Inhabited
+
+/-- an element inside a container: strings are quoted, an object shows its `@debug` text in a debug context -/
+def Simple.text (dbg : Bool) : Simple → Bytes
+  | .str b => [39] ++ b ++ [39]
+  | .int n => showInt n
+  | .bool b => display (.bool b)
+  | .null => display .null
+  | .obj d g => if dbg then g else d
+
+def joinComma : List Bytes → Bytes
+  | [] => []
+  | [x] => x
+  | x :: y :: r => x ++ [44, 32] ++ joinComma (y :: r)
+
+/-- `UnaryOp::Display` / `UnaryOp::Debug` of a non-number -/
+def XVal.text (dbg : Bool) : XVal → Bytes
+  | .base v => if dbg then debug v else display v
+  | .float _ _ => []
+  | .tuple xs => [40] ++ joinComma (xs.map (Simple.text dbg)) ++ [41]
+  | .list xs => [91] ++ joinComma (xs.map (Simple.text dbg)) ++ [93]
+  | .map es => [123] ++ joinComma (es.map fun (k, v) => k ++ [58, 32] ++ v.text dbg) ++ [125]
+  | .obj d g => if dbg then g else d
+
+def XVal.isNumber : XVal → Bool
+  | .base v => FmtSpec.isNumber v
+  | .float _ _ => true
+  | _ => false
+
+/-- which repairs are in the tree (requests/C15-fix-2, -6, -12, -13, -14) -/
+structure FmtCfg where
+  exactCenter : Bool := false
+  clusterFirst : Bool := false
+  signAware : Bool := false
+  precRepr : Bool := false       -- fix-13: precision is honoured together with `?`, `e`, `E`
+  radixStrict : Bool := false    -- fix-14: `x X b o` on a float that is not an `i64` value is a runtime error
+  deriving DecidableEq, Repr
+
+def isRadix : Rep → Bool
+  | .hexLower | .hexUpper | .binary | .octal => true
+  | _ => false
+
+def radixText (r : Rep) (n : Int) : Bytes :=
+  match r with
+  | .hexLower => showRadix 16 false n
+  | .hexUpper => showRadix 16 true n
+  | .binary => showRadix 2 false n
+  | .octal => showRadix 8 false n
+  | _ => showInt n
+
+/-- first part of `run_string_push` for every value kind -/
+def renderX (g : Bytes → Nat) (x : XVal) (o : Option Opts) (cfg : FmtCfg := {}) : Except PErr Bytes :=
+  let precision := o.bind (·.precision)
+  let rep := o.bind (·.rep)
+  let precR := if cfg.precRepr then precision else none     -- current code: a representation drops the precision
+  match x with
+  | .float bits sd =>
+    (match rep with
+     | some .debug => .ok (match precR with | some p => floatFixed bits p | none => floatDisplay bits sd)
+     | some .expLower => .ok (match precR with | some p => floatExpPrec false bits sd p | none => floatExp false bits sd)
+     | some .expUpper => .ok (match precR with | some p => floatExpPrec true bits sd p | none => floatExp true bits sd)
+     | some r => if cfg.radixStrict ∧ ¬ fExactI64 bits then .error .reprNotInteger else .ok (radixText r (truncI64 bits))
+     | none => .ok (match precision with | some p => floatFixed bits p | none => floatDisplay bits sd))
+  | .base (.int n) =>
+    (match precR, rep with
+     | some p, some .debug => .ok (render g (.int n) (some { precision := some p }))
+     | some p, some .expLower =>
+       .ok (if inF64Range n then expPrecText (decide (n < 0)) false (f64Int n).natAbs 1 ((showDec (f64Int n).natAbs).length - 1 : Nat) p
+            else render g (.int n) o)
+     | some p, some .expUpper =>
+       .ok (if inF64Range n then expPrecText (decide (n < 0)) true (f64Int n).natAbs 1 ((showDec (f64Int n).natAbs).length - 1 : Nat) p
+            else render g (.int n) o)
+     | _, _ => .ok (render g (.int n) o))
+  | .base v => .ok (render g v o)
+  | other =>
+    let text := other.text (rep == some .debug)
+    .ok (match precision with
+         | some p => ((graphemes g text).take p).flatten
+         | none => text)
+
+/-- what `run_string_push` appends, for every value kind -/
+def applyFmtX (g : Bytes → Nat) (x : XVal) (o : Option Opts) (cfg : FmtCfg := {}) : Except PErr Bytes :=
+  match renderX g x o cfg with
+  | .error e => .error e
+  | .ok r =>
+    .ok (match o with
+      | some oo =>
+        if cfg.signAware ∧ x.isNumber ∧ oo.align = .default ∧ oo.fill = some [48] ∧ r.head? = some 45 then
+          45 :: pad g true (r.drop 1) (some { oo with minWidth := oo.minWidth.map (· - 1) }) cfg.exactCenter
+        else pad g x.isNumber r o cfg.exactCenter
+      | none => r)
+
+/-- `'{x:fmt}'` for every value kind -/
+def formatX (g : Bytes → Nat) (fmt : Bytes) (x : XVal) (cfg : FmtCfg := {}) : Except PErr Bytes :=
+  match parse g fmt cfg.clusterFirst with
+  | .error e => .error e
+  | .ok o => applyFmtX g x (some o) cfg
 
 end KotoVerif.FmtSpec
